@@ -9,7 +9,8 @@
 (* signature and as the other countersignature form.                       *)
 (***************************************************************************)
 EXTENDS CoseSystem, Json
-CONSTANTS Deep      \* TRUE: more parent/countersigner header shapes, all head widths of the decoded parent, real keys
+CONSTANTS Deep,     \* TRUE: more parent/countersigner header shapes, head widths of the decoded parent, real keys
+          DeepWidths \* head widths of the decoded parent's protected bstr explored by the deep variants (0 = constructed parent)
 
 AlgV == [t |-> "alg", neg |-> TRUE, a |-> <<6>>]
 P1 == <<<<GoInt("int64", 1), AlgV>>, <<GoInt("int64", 4), GoBytes(<<49>>)>>>>
@@ -130,7 +131,7 @@ PickRefuse == st.phase = 0 /\ \E pk \in PKinds : \E form \in {"ptr", "val"} : \E
               /\ st' = [phase |-> 1, flow |-> "refuse", pk |-> pk, form |-> form, abbr |-> abbr, why |-> why, x |-> X1]
 PickReplay == st.phase = 0 /\ \E r \in {"as-message-signature", "abbreviated-as-full", "full-as-abbreviated", "signature-as-countersignature"} :
               st' = [phase |-> 1, flow |-> "replay", r |-> r]
-PickDeep == Deep /\ st.phase = 0 /\ \E pk \in PKinds : \E form \in {"ptr", "val"} : \E abbr \in BOOLEAN : \E w \in {0, 1, 2, 4, 8} : \E PP \in PShapes : \E CP \in CsShapes :
+PickDeep == Deep /\ st.phase = 0 /\ \E pk \in PKinds : \E form \in {"ptr", "val"} : \E abbr \in BOOLEAN : \E w \in DeepWidths : \E PP \in PShapes : \E CP \in CsShapes :
               \E x \in Exts : \E mu \in Mutations(pk) : \E real \in BOOLEAN :
               \* an empty countersigner header needs external data (nothing to insert the algorithm into otherwise is fine for signing, but verification needs alg or external data)
               (real => (mu = "none" /\ w \in {0, 2}))
